@@ -162,7 +162,18 @@ Definition CopyRel (w1 w' : world) (self c : id) : Prop :=
      (forall i, i <> self -> i <> c -> i <> s -> w_nodes w' i = w_nodes w1 i)).
 
 
+
+(* ---------- registration in the reverse-reference index ---------- *)
+(* i is a reference element whose text is the string p (the test of the registration walk) *)
+Definition RefText (w : world) (i : id) (p : list N) : Prop :=
+  exists n, w_nodes w i = Some n /\ is_ref T (n_type n) = Val true /\
+            character_data T n = Val (Some (DString p)).
+
 End Defs.
+
+(* i is listed among the referrers of path p in model m (get_references_to) *)
+Definition HasOrigin (w : world) (m : N) (p : list N) (i : id) : Prop :=
+  exists x l, nth_opt (w_models w) (N.to_nat m) = Some x /\ assoc_get p (m_origins x) = Some l /\ In i l.
 
 (* ---------- Iso up to the text of the own SHORT-NAME ----------
    the copy c equals the source s except that, when [renamed], its first sub-element (the SHORT-NAME) has the
